@@ -167,3 +167,18 @@ PROPS["C01"] = dict(
     exhaustive_axes="message lengths 0..320 (thorough 0..2200) and ad lengths 0..320 for every construction and mask",
     assumptions=ASSUME_COMMON + ["nsec is always NULL (unused by contract)", "keys, nonces and contents come from a splitmix64 stream seeded by VERIF_SEED"],
 )
+
+PROPS["C05"] = dict(
+    name="c05", sources=["props/c05.cpp"], engine="rapidcheck + enumerator", libs=["-lrapidcheck"], cflags=["-O2"],
+    builds=[("asan", "native"), ("asan", "noti")],
+    builds_thorough=[("asan", "native"), ("asan", "noti"), ("asan", "portable"), ("asan", "noasm")],
+    level="exploration",
+    rule=("rapidcheck generators (seeded from VERIF_SEED, shrinking) draw (scalar, point) from structured classes: points {random, the 7 low-order u values, p-24..p+24, 2^255-40..2^255-1, 0..4000, 2^k, p-2^k, "
+          "all-ones limbs in radix 2^51 / 2^25.5 / 2^64 with one limb cleared or perturbed}, each with bit 255 randomly set; scalars {random, all 32 patterns of the five clamped bits, 0, all-ff, 2^k, small, sparse}. "
+          "16000 scalarmult / base / DH-symmetry cases and 6000 beforenm (HSalsa20 / HChaCha20) / kx (cross-equality, BLAKE2b-512(shared||client_pk||server_pk), NULL rx/tx, adversarial low-order server keys) / "
+          "seeded key-pair cases per build, plus a deterministic sweep of every low-order encoding x both top bits x all 32 clamp patterns. Each case runs under CPU masks {all = sandy2x AVX assembly, -avx = ref10} "
+          "in builds native (51-bit limbs) and noti (25.5-bit limbs). Oracle: RFC 7748 Montgomery ladder on big integers (ref/x25519.hpp): return 0 and exact value when the result is non-zero, -1 exactly when it is all-zero. "
+          "Non-trivial = structured (non-uniform) point or scalar, or a key-agreement API; distinct = (build, kind, classes, mask, operand bytes)."),
+    exhaustive_axes="7 low-order encodings x 2 top bits x 32 clamp patterns x masks x {scalarmult, beforenm x2}",
+    assumptions=ASSUME_COMMON,
+)
